@@ -213,8 +213,17 @@ def install_symconst_type_support():
                 return True
             return z3.Or(conds)
         return orig_member(interp, item, elems)
+    orig_identical = models.identical
+
+    def identical(interp, a, b):
+        if isinstance(a, SymConstType) and isinstance(b, SymConstType):
+            # type(x) is type(y): True and False share the type bool
+            norm = lambda k: z3.If(k == 2, z3.IntVal(1), k)
+            return norm(a.c.kind) == norm(b.c.kind)
+        return orig_identical(interp, a, b)
     models.equal = equal
     models._member = member
+    models.identical = identical
     models._symconst_patched = True
 
 
